@@ -10,13 +10,22 @@ Definition mism_val := Eval vm_compute in
              && Bool.eqb (valid_form_b allow (strip s)) (c26_accepts (validate_address s allow))) cases_val.
 Print mism_val.
 
-Fixpoint c26_steps (max : Z) (allow : bool) (l : pl) (steps : list (op * out * pl)) : bool :=
+Fixpoint c26_steps (max : Z) (allow : bool) (l : pl) (steps : list (xop * out * pl)) : bool :=
   match steps with
   | [] => true
   | (o, r, d) :: rest =>
-      let '(l', r') := step max allow l o in
+      let '(l', r') := xstep max allow l o in
       out_eqb r' r && pl_eqb l' d && c26_steps max allow l' rest
   end.
+(* start: the list pex.New builds from the cache file = the model's `start` *)
+Definition mism_start := Eval vm_compute in
+  failing (fun c : Z * bool * bool * list fentry * list str * list str * Z * pl =>
+             let '(max, allow, disable, es, kept, defaults, now, d) := c in
+             match start max allow disable es kept defaults now with
+             | Some l => pl_eqb l d
+             | None => false
+             end) cases_start.
+Print mism_start.
 Definition mism_ops := Eval vm_compute in
-  failing (fun c : Z * bool * list (op * out * pl) => let '(max, allow, steps) := c in c26_steps max allow [] steps) cases_ops.
+  failing (fun c : Z * bool * pl * list (xop * out * pl) => let '(max, allow, l0, steps) := c in c26_steps max allow l0 steps) cases_ops.
 Print mism_ops.
